@@ -178,9 +178,15 @@ pub fn c03(seed: u64, tier: Tier) -> Vec<Episode> {
         3 => Step::DbSyncData { d: 0 },
         _ => Step::DbSyncAll { d: 0 },
     });
-    let checks = Checks { crash_points: true, sync_trace: true, crash_reopen_every: if thorough { 1 } else { 3 }, audit_traverse: true, ..Default::default() };
+    let mut checks = Checks { crash_points: true, sync_trace: true, crash_reopen_every: if thorough { 1 } else { 3 }, audit_traverse: true, ..Default::default() };
+    let mut ep_buggify = buggify(&mut g, seed);
+    // crash twin (real process, real kernel, SIGKILL at a sync point): a sample of the episodes
+    if seed % (if thorough { 25 } else { 150 }) == 0 {
+        checks.kill_twin = true;
+        ep_buggify = None;
+    }
     let mut ep = base_episode("C03", "sync-points", seed, maps, st, checks);
-    ep.buggify = buggify(&mut g, seed);
+    ep.buggify = ep_buggify;
     vec![ep]
 }
 
